@@ -269,5 +269,4 @@ class StrPlugin:
 
 
 lib.PLUGINS.insert(0, StrPlugin())
-REG["xarray.DataArray"] = TypeTag("xarray.DataArray")
 REG["pandas.Series"] = TypeTag("pandas.Series")
